@@ -1,7 +1,9 @@
 use crate::engine::Ctx;
 
 pub mod c01;
+pub mod c02;
 pub mod c03;
+pub mod c08;
 pub mod c16;
 pub mod c18;
 pub mod common;
@@ -18,7 +20,9 @@ pub mod c15;
 pub fn run(ctx: &mut Ctx) -> bool {
     match ctx.id.as_str() {
         "C01" => c01::run(ctx),
+        "C02" => c02::run(ctx),
         "C03" => c03::run(ctx),
+        "C08" => c08::run(ctx),
         "C16" => c16::run(ctx),
         "C18" => c18::run(ctx),
         #[cfg(not(pv_core))]
